@@ -11,7 +11,7 @@ Verified means, all confirmed here and recorded in meta.json:
 Usage: tools/collect_seeded.py [ID ...]   (default: every /tmp/mut/C??)"""
 import glob, json, os, re, shutil, subprocess, sys, time
 
-SRC = "/tmp/mut"
+SRC = os.environ.get("SEED_SRC", "/tmp/mut")
 WT = "/tmp/seedverify"
 OUT = "/verif/seeded"
 
@@ -27,7 +27,7 @@ def suite_ok(out):
 
 
 def main():
-    ids = sys.argv[1:] or sorted(os.path.basename(p) for p in glob.glob(SRC + "/C??") if os.path.isdir(p))
+    ids = sys.argv[1:] or sorted(os.path.basename(p) for p in glob.glob(SRC + "/C??*") if os.path.isdir(p))
     sh("git -C /repo worktree remove --force %s" % WT)
     shutil.rmtree(WT, ignore_errors=True)
     rc, o = sh("git -C /repo worktree add -q --detach %s HEAD" % WT)
@@ -89,8 +89,8 @@ def main():
                     needs = open(notes).read()[:1500]
                 meta = {
                     "id": sid,
-                    "property": pid,
-                    "property_title": props[pid]["title"],
+                    "property": pid[:3],
+                    "property_title": props[pid[:3]]["title"],
                     "origin": "independent sub-agent given only the property text and a scratch worktree (/tmp/mut/%s)" % pid,
                     "files_changed": sorted(set(re.findall(r"^\+\+\+ b/(\S+)", open(patch).read(), re.M))),
                     "needs_to_manifest": "see notes.md (written by the sub-agent); excerpt: " + needs[:600],
